@@ -3,6 +3,7 @@ package main
 import (
 	"encoding/json"
 	"fmt"
+	"go/ast"
 	"os"
 	"path/filepath"
 	"sort"
@@ -13,7 +14,11 @@ type allowEntry struct {
 	Key   string `json:"key"`
 	Claim string `json:"claim,omitempty"`
 	Why   string `json:"why"`
-	used  bool
+	// normalised texts of statements / conditions of the same function that the review relies on
+	// (e.g. the guard two lines above); if one of them is gone the entry is void
+	Context []string `json:"context,omitempty"`
+	used    bool
+	void    string
 }
 
 type allowList struct {
@@ -26,6 +31,8 @@ type allowList struct {
 	Conv    []*allowEntry `json:"conv_sites"`
 	use     map[string]*allowEntry
 	store   map[string]*allowEntry
+	voided  []*allowEntry
+	dump    bool
 }
 
 func loadAllow(path string) *allowList {
@@ -50,6 +57,86 @@ func loadAllow(path string) *allowList {
 	return al
 }
 
+// validate voids the entries whose context texts are no longer in the function named by the key
+func (al *allowList) validate(pk *pkgInfo) {
+	texts := map[string]map[string]bool{}
+	textsOf := func(fn string) map[string]bool {
+		if m, ok := texts[fn]; ok {
+			return m
+		}
+		m := map[string]bool{}
+		if fi := pk.funcs[fn]; fi != nil {
+			ast.Inspect(fi.decl.Body, func(n ast.Node) bool {
+				switch x := n.(type) {
+				case *ast.AssignStmt, *ast.ExprStmt, *ast.ReturnStmt, *ast.IncDecStmt, *ast.DeclStmt, *ast.BranchStmt:
+					m[pk.text(x)] = true
+				case *ast.IfStmt:
+					m[pk.text(x.Cond)] = true
+				case *ast.ForStmt:
+					if x.Cond != nil {
+						m[pk.text(x.Cond)] = true
+					}
+				case *ast.RangeStmt:
+					m["range "+pk.text(x.X)] = true
+				case *ast.CaseClause:
+					for _, e := range x.List {
+						m[pk.text(e)] = true
+					}
+				}
+				return true
+			})
+		}
+		texts[fn] = m
+		if al.dump {
+			var ks []string
+			for k := range m {
+				ks = append(ks, k)
+			}
+			sort.Strings(ks)
+			for _, k := range ks {
+				fmt.Println("TEXT", k)
+			}
+		}
+		return m
+	}
+	for _, l := range [][]*allowEntry{al.Use, al.Store, al.Index, al.Assert, al.Panic, al.Conv} {
+		for _, e := range l {
+			parts := strings.SplitN(e.Key, "|", 3)
+			if len(parts) != 3 {
+				e.void = "malformed key"
+				continue
+			}
+			for _, c := range e.Context {
+				if !textsOf(parts[1])[c] {
+					e.void = "context text no longer in " + parts[1] + ": " + c
+				}
+			}
+		}
+	}
+	drop := func(m map[string]*allowEntry) {
+		for k, e := range m {
+			if e.void != "" {
+				delete(m, k)
+			}
+		}
+	}
+	drop(al.use)
+	drop(al.store)
+	live := func(l []*allowEntry) []*allowEntry {
+		var out []*allowEntry
+		for _, e := range l {
+			if e.void == "" {
+				out = append(out, e)
+			} else {
+				al.voided = append(al.voided, e)
+			}
+		}
+		return out
+	}
+	al.Use, al.Store, al.Index = live(al.Use), live(al.Store), live(al.Index)
+	al.Assert, al.Panic, al.Conv = live(al.Assert), live(al.Panic), live(al.Conv)
+}
+
 // cleanReviewed: the store site is reviewed as never storing a typed nil
 func (al *allowList) cleanReviewed(key string) bool {
 	e := al.store[key]
@@ -57,12 +144,18 @@ func (al *allowList) cleanReviewed(key string) bool {
 }
 
 type result struct {
-	lines                                                                                      []string
-	nodes, useTotal, useCert, useAllowed, useOpen, storeTotal, storeOpen                       int
-	indexTotal, indexOpen, assertTotal, assertOpen, convTotal, convOpen, panicTotal, panicOpen int
+	lines                                                                 []string
+	indexTotal, indexOpen, assertTotal, assertOpen, panicTotal, panicOpen int
 }
 
 func coqStr(s string) string { return "\"" + strings.ReplaceAll(s, "\"", "\"\"") + "\"" }
+
+// coqComment makes a text safe inside a Coq comment (comments nest and lex string literals)
+func coqComment(s string) string {
+	s = strings.ReplaceAll(s, "(*", "( *")
+	s = strings.ReplaceAll(s, "*)", "* )")
+	return strings.ReplaceAll(s, "\"", "'")
+}
 
 func coqBool(b bool) string {
 	if b {
@@ -97,7 +190,7 @@ func (a *analysis) coqInstr(n *node) string {
 		case rUnknownDirty:
 			r = "RUnknownDirty"
 		case rConv:
-			r = fmt.Sprintf("(RConv %d)", n.y)
+			r = fmt.Sprintf("(RConv %d %d)", n.y, n.ptype)
 		case rNormalize:
 			r = fmt.Sprintf("(RNormalize %d)", n.y)
 		case rAssert:
@@ -107,7 +200,11 @@ func (a *analysis) coqInstr(n *node) string {
 	case kGuard:
 		return fmt.Sprintf("IGuard %d %d %d", n.x, n.s1.id, n.s2.id)
 	case kTypeTest:
-		return fmt.Sprintf("ITypeTest %d %d %s %d %d", n.x, n.y, coqBool(n.toIface), n.s1.id, n.s2.id)
+		tgt := "None"
+		if n.ptype >= 0 && !n.toIface {
+			tgt = fmt.Sprintf("(Some %d)", n.ptype)
+		}
+		return fmt.Sprintf("ITypeTest %d %d %s %s %d %d", n.x, n.y, coqBool(n.toIface), tgt, n.s1.id, n.s2.id)
 	case kUse:
 		return fmt.Sprintf("IUse %d %d %d", n.x, n.site.id, n.s1.id)
 	case kStore:
@@ -134,8 +231,10 @@ func (a *analysis) coqInstr(n *node) string {
 			as = append(as, a.coqArg(op))
 		}
 		return fmt.Sprintf("IRet [%s]", strings.Join(as, "; "))
+	case kHalt:
+		return "IHalt"
 	}
-	return "IBranch 0 0"
+	panic("unknown node kind")
 }
 
 func avList(nn, cl []bool) string {
@@ -187,19 +286,39 @@ func specStr(nn, cl bool) string {
 	return "maybe-nil-or-typed-nil"
 }
 
-func (a *analysis) emitAll(out, rep string, allow *allowList, inv *inventory, rounds int) *result {
+type allowedRow struct {
+	id  int
+	key string
+	why string
+}
+
+// progResult: what emitProgram found for one reading (C01: the whole run; C03: runs are cut at the first
+// recorded parse error)
+type progResult struct {
+	c03                                             bool
+	rows                                            []allowedRow
+	jsites                                          []*jsonSite
+	jconvs                                          []*jsonConv
+	jfuncs                                          []*jsonFunc
+	bad                                             []string
+	nodes, useTotal, useCert, useReviewed, useOpen  int
+	storeTotal, storeCert, storeReviewed, storeOpen int
+	convTotal, convOpen                             int
+	strict, dirty, tnNames, decisions, problems     []string
+	rounds, pruned                                  int
+	lines                                           []string
+}
+
+// emitProgram writes the program of one reading (file, Coq name prefix) and returns its verdicts
+func (a *analysis) emitProgram(path, name string, allow *allowList, c03 bool, rounds, pruned int) *progResult {
 	pk := a.pk
-	r := &result{}
-	// ---- verdicts for the graph sites ----
-	allow1 := map[int]bool{} // C01
-	allow3 := map[int]bool{} // C03
-	var jsites []*jsonSite
-	type allowedRow struct {
-		id  int
-		key string
-		why string
+	r := &progResult{c03: c03, rounds: rounds, pruned: pruned, strict: []string{}, dirty: []string{}, tnNames: []string{},
+		decisions: []string{}, problems: []string{}, bad: []string{}}
+	tag := "c01"
+	if c03 {
+		tag = "c03"
 	}
-	var rows1, rows3 []allowedRow
+	allowed := map[int]bool{}
 	for _, s := range a.sites {
 		js := &jsonSite{ID: s.id, Key: s.key, Kind: s.kind, What: s.what, Pos: pk.posString(s.pos), Class: s.class}
 		cert := a.siteCertified(s)
@@ -207,28 +326,28 @@ func (a *analysis) emitAll(out, rep string, allow *allowList, inv *inventory, ro
 		case "store":
 			r.storeTotal++
 			js.Mode = [...]string{"strict", "clean", "dirty"}[s.node.mode]
+			if s.node.mode == storeDirty && !c03 {
+				cert = true // no obligation in the C01 reading
+				js.Mode = "dirty (no C01 obligation)"
+			}
+			e := allow.store[s.key]
 			switch {
 			case cert:
 				js.Status = "certified"
-			case allow.store[s.key] != nil:
-				e := allow.store[s.key]
+				r.storeCert++
+			case e != nil && (c03 || e.Claim == "never-typed-nil"):
 				e.used = true
 				js.Status = "reviewed"
 				js.Why = e.Claim + ": " + e.Why
-				allow3[s.id] = true
-				rows3 = append(rows3, allowedRow{s.id, s.key, js.Why})
-				if e.Claim == "never-typed-nil" {
-					allow1[s.id] = true
-					rows1 = append(rows1, allowedRow{s.id, s.key, js.Why})
-				}
+				r.storeReviewed++
+				allowed[s.id] = true
+				r.rows = append(r.rows, allowedRow{s.id, s.key, js.Why})
 			default:
 				js.Status = "open"
 				r.storeOpen++
 				js.Path = a.whyBad(s.fn, s.node, s.node.x)
-				r.lines = append(r.lines, fmt.Sprintf("STORE(%s) %s  [%s] %s", js.Mode, s.key, s.what, js.Pos))
+				r.lines = append(r.lines, fmt.Sprintf("%s STORE(%s) %s  [%s] %s", tag, js.Mode, s.key, s.what, js.Pos))
 			}
-			// a reviewed claim only-with-error on a store into a clean class would be unsound for C01:
-			// the class was made dirty by the main loop in that case, so mode is dirty here.
 		default:
 			r.useTotal++
 			switch {
@@ -240,31 +359,26 @@ func (a *analysis) emitAll(out, rep string, allow *allowList, inv *inventory, ro
 				e.used = true
 				js.Status = "reviewed"
 				js.Why = e.Why
-				r.useAllowed++
-				allow1[s.id] = true
-				allow3[s.id] = true
-				rows1 = append(rows1, allowedRow{s.id, s.key, e.Why})
-				rows3 = append(rows3, allowedRow{s.id, s.key, e.Why})
+				r.useReviewed++
+				allowed[s.id] = true
+				r.rows = append(r.rows, allowedRow{s.id, s.key, e.Why})
 				js.Path = a.whyBad(s.fn, s.node, s.node.x)
 			default:
 				js.Status = "open"
 				r.useOpen++
 				js.Path = a.whyBad(s.fn, s.node, s.node.x)
-				r.lines = append(r.lines, fmt.Sprintf("USE %s  [%s; operand %s] %s", s.key, s.what, s.opstr, js.Pos))
+				r.lines = append(r.lines, fmt.Sprintf("%s USE %s  [%s; operand %s] %s", tag, s.key, s.what, s.opstr, js.Pos))
 			}
 		}
-		jsites = append(jsites, js)
+		r.jsites = append(r.jsites, js)
 	}
-	bad1 := a.selfCheck(allow1, false)
-	bad3 := a.selfCheck(allow3, true)
+	r.bad = append(r.bad, a.selfCheck(allowed, c03)...)
 
 	// ---- conversion sites ----
 	convReviewed := map[string]*allowEntry{}
 	for _, e := range allow.Conv {
 		convReviewed[e.Key] = e
 	}
-	normalized := a.normalizedCallees()
-	var jconvs []*jsonConv
 	type convRow struct {
 		key    string
 		status int
@@ -287,23 +401,181 @@ func (a *analysis) emitAll(out, rep string, allow *allowList, inv *inventory, ro
 				switch {
 				case n.nn.has(n.y) && n.cl.has(n.y):
 					jc.Status = "certain"
-				case n.s1.kind == kRet && len(n.s1.args) == 1 && n.s1.args[0].k == opVar && n.s1.args[0].v == n.x && normalized[fi]:
-					jc.Status = "ret-normalized"
-				case convReviewed[c.key] != nil:
+				case n.s1.kind == kRet && len(n.s1.args) == 1 && n.s1.args[0].k == opVar && n.s1.args[0].v == n.x &&
+					len(a.specs[fi].rCL) == 1 && !a.specs[fi].rCL[0]:
+					// the function declares (certificate) that its result may be a typed nil: every consumer is
+					// checked against that by the verified checker
+					jc.Status = "ret-declared"
+				case convReviewed[c.key] != nil && c03:
 					convReviewed[c.key].used = true
 					jc.Status = "reviewed"
 				default:
 					jc.Status = "open"
-					r.convOpen++
-					r.lines = append(r.lines, fmt.Sprintf("CONV %s %s", c.key, jc.Pos))
+					if c03 {
+						r.convOpen++
+						r.lines = append(r.lines, fmt.Sprintf("c03 CONV %s %s", c.key, jc.Pos))
+					}
 				}
 			}
-			jconvs = append(jconvs, jc)
+			r.jconvs = append(r.jconvs, jc)
 			convRows = append(convRows, row)
 		}
 	}
 
-	// ---- inventories ----
+	// ---- the Coq file ----
+	var sb strings.Builder
+	sb.WriteString("(* GENERATED by /verif/translator/cmd/nilgen from /repo/parser -- do not edit. *)\n")
+	if c03 {
+		sb.WriteString("(* The C03 reading: recording a parse error (p.errors = append(p.errors, ..)) is IHalt -- C03 speaks about\n   runs of Parse that return a nil error, in which no parse error is ever recorded. *)\n")
+	} else {
+		sb.WriteString("(* The C01 reading: the whole run of Parse, errors or not. *)\n")
+	}
+	sb.WriteString("From Coq Require Import List NArith String.\nFrom DC Require Import Nil.NilLang.\nImport ListNotations.\nLocal Open Scope N_scope.\n\n")
+	for _, fi := range a.funcs {
+		r.nodes += len(fi.g.nodes)
+	}
+	fmt.Fprintf(&sb, "(* %d functions reachable from %s, %d nodes (%d proved dead and dropped), %d use sites, %d store sites *)\n",
+		len(a.funcs), a.entry.name, r.nodes, pruned, r.useTotal, r.storeTotal)
+	for c := range pk.strict {
+		r.strict = append(r.strict, c)
+	}
+	for c := range pk.dirty {
+		r.dirty = append(r.dirty, c)
+	}
+	sort.Strings(r.strict)
+	sort.Strings(r.dirty)
+	fmt.Fprintf(&sb, "(* strict cell classes (loads are RAlloc, stores SStrict): %s *)\n", coqComment(strings.Join(r.strict, " ")))
+	fmt.Fprintf(&sb, "(* dirty cell classes (loads are RUnknownDirty, stores SDirty): %s *)\n", coqComment(strings.Join(r.dirty, " ")))
+	sb.WriteString("Local Notation nd i a b := (mkNode i a b) (only parsing).\n\n")
+	for _, fi := range a.funcs {
+		g := fi.g
+		sp := a.specs[fi]
+		var vs []string
+		for i, v := range g.vars {
+			vs = append(vs, fmt.Sprintf("%d:%s", i, v.name))
+		}
+		fmt.Fprintf(&sb, "(* %d: %s   vars %s *)\n", fi.id, fi.name, coqComment(strings.Join(vs, " ")))
+		fmt.Fprintf(&sb, "Definition %s_f%d : func := mkFunc (mkSpec %s %s) [\n", name, fi.id, avList(sp.pNN, sp.pCL), avList(sp.rNN, sp.rCL))
+		for i, n := range g.nodes {
+			sep := ";"
+			if i == len(g.nodes)-1 {
+				sep = ""
+			}
+			cm := ""
+			if n.site != nil {
+				cm = " (* " + coqComment(n.site.key) + " *)"
+			}
+			fmt.Fprintf(&sb, "  nd (%s) %s %s%s%s\n", a.coqInstr(n), n.nn.big().String(), n.cl.big().String(), sep, cm)
+		}
+		sb.WriteString("].\n")
+	}
+	fmt.Fprintf(&sb, "\nDefinition %s : prog := mkProg [", name)
+	for i := range a.funcs {
+		if i > 0 {
+			sb.WriteString("; ")
+		}
+		fmt.Fprintf(&sb, "%s_f%d", name, i)
+	}
+	var tns []int
+	for t := range pk.tn {
+		tns = append(tns, t)
+	}
+	sort.Ints(tns)
+	var tnStr []string
+	for _, t := range tns {
+		tnStr = append(tnStr, fmt.Sprint(t))
+		r.tnNames = append(r.tnNames, fmt.Sprintf("%d=%s", t, pk.typeNames[t]))
+	}
+	fmt.Fprintf(&sb, "] %d\n  (* pointer types of which a typed nil may exist: %s *)\n  [%s].\n\n", a.entry.id, coqComment(strings.Join(r.tnNames, " ")), strings.Join(tnStr, "; "))
+	fid := func(fn string) int {
+		if fi := pk.funcs[fn]; fi != nil && fi.reach {
+			return fi.id
+		}
+		return 1 << 30 // absent: the lookup fails and the obligation with it
+	}
+	fmt.Fprintf(&sb, "Definition %s_fn_Parse : N := %d.\nDefinition %s_fn_ParseStatements : N := %d.\nDefinition %s_fn_parseStatement : N := %d.\n\n",
+		name, fid("Parse"), name, fid("ParseStatements"), name, fid("parseStatement"))
+	sb.WriteString("Local Open Scope string_scope.\n")
+	sb.WriteString("(* constructs the translator could not model (function values, defer, go, recover, promoted fields through\n   pointers, ...): must be empty *)\n")
+	fmt.Fprintf(&sb, "Definition %s_translation_problems : list string := [", name)
+	for i, pr := range pk.problems {
+		if i > 0 {
+			sb.WriteString(";")
+		}
+		fmt.Fprintf(&sb, "\n  %s", coqStr(pr))
+	}
+	sb.WriteString("].\n\n")
+	r.problems = append(r.problems, pk.problems...)
+	fmt.Fprintf(&sb, "(* the graph sites the certificate does not cover: (site, key) *)\nDefinition %s_uncertified_sites : list (N * string) := [\n", name)
+	first := true
+	for _, js := range r.jsites {
+		if js.Status == "certified" {
+			continue
+		}
+		if !first {
+			sb.WriteString(";\n")
+		}
+		first = false
+		fmt.Fprintf(&sb, "  (%d%%N, %s)", js.ID, coqStr(js.Key))
+	}
+	sb.WriteString("\n].\n\n")
+	if c03 {
+		sb.WriteString("(* stores into the statement list returned by ParseStatements: (function, node) *)\n")
+		fmt.Fprintf(&sb, "Definition %s_result_stores : list (N * N) := [", name)
+		first = true
+		if ps := pk.funcs["ParseStatements"]; ps != nil && ps.reach {
+			for _, s := range ps.g.stores {
+				if s.class == "elem:ast.Statement" {
+					if !first {
+						sb.WriteString("; ")
+					}
+					first = false
+					fmt.Fprintf(&sb, "(%d%%N, %d%%N)", ps.id, s.node.id)
+				}
+			}
+		}
+		sb.WriteString("].\n\n")
+		sb.WriteString("(* implicit pointer -> interface conversions: (key, status, function, node); status 0: the operand is a\n   composite literal / allocation; status 1: the node is [ISet _ (RConv y t) _] *)\n")
+		fmt.Fprintf(&sb, "Definition %s_conv_sites : list (string * N * N * N) := [\n", name)
+		for i, c := range convRows {
+			sep := ";"
+			if i == len(convRows)-1 {
+				sep = ""
+			}
+			fmt.Fprintf(&sb, "  (%s, %d%%N, %d%%N, %d%%N)%s\n", coqStr(c.key), c.status, c.fn, c.pc, sep)
+		}
+		sb.WriteString("].\n")
+	}
+	writeIfChanged(path, []byte(sb.String()))
+
+	for _, fi := range a.funcs {
+		sp := a.specs[fi]
+		jf := &jsonFunc{Name: fi.name, ID: fi.id, Nodes: len(fi.g.nodes), Vars: len(fi.g.vars)}
+		for i, p := range trackedParams(fi.sig) {
+			nm := "recv"
+			if p.idx >= 0 {
+				nm = fi.sig.Params().At(p.idx).Name()
+			}
+			jf.Params = append(jf.Params, nm+": "+specStr(sp.pNN[i], sp.pCL[i]))
+		}
+		for j := range trackedResults(fi.sig) {
+			jf.Results = append(jf.Results, specStr(sp.rNN[j], sp.rCL[j]))
+		}
+		r.jfuncs = append(r.jfuncs, jf)
+	}
+	r.decisions = append(r.decisions, a.demoted...)
+	for _, b := range r.bad {
+		r.lines = append(r.lines, "SELFCHECK "+tag+": "+b)
+	}
+	return r
+}
+
+// emitRest writes the inventories (Gen/ParserNilInv.v), the reviewed lists, the schema and the report
+func (a *analysis) emitRest(out, rep string, allow *allowList, inv *inventory, r1, r3 *progResult) *result {
+	pk := a.pk
+	r := &result{}
+	r.lines = append(r.lines, r1.lines...)
+	r.lines = append(r.lines, r3.lines...)
 	reviewed := func(list []*allowEntry) map[string]*allowEntry {
 		m := map[string]*allowEntry{}
 		for _, e := range list {
@@ -329,93 +601,9 @@ func (a *analysis) emitAll(out, rep string, allow *allowList, inv *inventory, ro
 	count(inv.assert, asRev, "ASSERT", &r.assertTotal, &r.assertOpen)
 	count(inv.panics, paRev, "PANIC", &r.panicTotal, &r.panicOpen)
 
-	// ---- ParserNil.v ----
 	var sb strings.Builder
 	sb.WriteString("(* GENERATED by /verif/translator/cmd/nilgen from /repo/parser -- do not edit. *)\n")
-	sb.WriteString("From Coq Require Import List NArith String.\nFrom DC Require Import Nil.NilLang.\nImport ListNotations.\nLocal Open Scope N_scope.\n\n")
-	for _, fi := range a.funcs {
-		r.nodes += len(fi.g.nodes)
-	}
-	fmt.Fprintf(&sb, "(* %d functions reachable from %s, %d nodes, %d use sites, %d store sites *)\n", len(a.funcs), a.entry.name, r.nodes, r.useTotal, r.storeTotal)
-	var strict, dirty []string
-	for c := range pk.strict {
-		strict = append(strict, c)
-	}
-	for c := range pk.dirty {
-		dirty = append(dirty, c)
-	}
-	sort.Strings(strict)
-	sort.Strings(dirty)
-	fmt.Fprintf(&sb, "(* strict cell classes (loads are RAlloc, stores SStrict): %s *)\n", strings.Join(strict, " "))
-	fmt.Fprintf(&sb, "(* dirty cell classes (loads are RUnknownDirty, stores SDirty): %s *)\n", strings.Join(dirty, " "))
-	sb.WriteString("Local Notation nd i a b := (mkNode i a b) (only parsing).\n\n")
-	for _, fi := range a.funcs {
-		g := fi.g
-		sp := a.specs[fi]
-		var vs []string
-		for i, v := range g.vars {
-			vs = append(vs, fmt.Sprintf("%d:%s", i, v.name))
-		}
-		fmt.Fprintf(&sb, "(* %d: %s   vars %s *)\n", fi.id, fi.name, strings.Join(vs, " "))
-		fmt.Fprintf(&sb, "Definition f%d : func := mkFunc (mkSpec %s %s) [\n", fi.id, avList(sp.pNN, sp.pCL), avList(sp.rNN, sp.rCL))
-		for i, n := range g.nodes {
-			sep := ";"
-			if i == len(g.nodes)-1 {
-				sep = ""
-			}
-			cm := ""
-			if n.site != nil {
-				cm = " (* " + strings.ReplaceAll(n.site.key, "*)", "* )") + " *)"
-			}
-			fmt.Fprintf(&sb, "  nd (%s) %s %s%s%s\n", a.coqInstr(n), n.nn.big().String(), n.cl.big().String(), sep, cm)
-		}
-		sb.WriteString("].\n")
-	}
-	sb.WriteString("\nDefinition parser_nil : prog := mkProg [")
-	for i := range a.funcs {
-		if i > 0 {
-			sb.WriteString("; ")
-		}
-		fmt.Fprintf(&sb, "f%d", i)
-	}
-	fmt.Fprintf(&sb, "] %d.\n\n", a.entry.id)
-	fid := func(name string) int {
-		if fi := pk.funcs[name]; fi != nil && fi.reach {
-			return fi.id
-		}
-		return 1 << 30 // absent: the lookup fails and the obligation with it
-	}
-	fmt.Fprintf(&sb, "Definition fn_Parse : N := %d.\nDefinition fn_ParseStatements : N := %d.\nDefinition fn_parseStatement : N := %d.\n\n", fid("Parse"), fid("ParseStatements"), fid("parseStatement"))
-	// sites that are not certified (the only ones a reviewed list may name)
-	sb.WriteString("Local Open Scope string_scope.\n")
-	sb.WriteString("(* the graph sites the certificate does not cover: (site, key) *)\nDefinition uncertified_sites : list (N * string) := [\n")
-	first := true
-	for _, js := range jsites {
-		if js.Status == "certified" {
-			continue
-		}
-		if !first {
-			sb.WriteString(";\n")
-		}
-		first = false
-		fmt.Fprintf(&sb, "  (%d%%N, %s)", js.ID, coqStr(js.Key))
-	}
-	sb.WriteString("\n].\n\n")
-	// statement stores of ParseStatements: the appended value must be usable (C03: no nil statement)
-	sb.WriteString("(* stores into the statement list returned by ParseStatements: (function, node) *)\nDefinition result_stores : list (N * N) := [")
-	first = true
-	if ps := pk.funcs["ParseStatements"]; ps != nil && ps.reach {
-		for _, s := range ps.g.stores {
-			if s.class == "elem:ast.Statement" {
-				if !first {
-					sb.WriteString("; ")
-				}
-				first = false
-				fmt.Fprintf(&sb, "(%d%%N, %d%%N)", ps.id, s.node.id)
-			}
-		}
-	}
-	sb.WriteString("].\n\n")
+	sb.WriteString("From Coq Require Import List NArith String.\nImport ListNotations.\nLocal Open Scope string_scope.\n\n")
 	emitInv := func(name, doc string, ss []*invSite) {
 		fmt.Fprintf(&sb, "(* %s: (key, guard) *)\nDefinition %s : list (string * string) := [\n", doc, name)
 		sorted := append([]*invSite{}, ss...)
@@ -432,17 +620,21 @@ func (a *analysis) emitAll(out, rep string, allow *allowList, inv *inventory, ro
 	emitInv("index_sites", "index and slice expressions on slices, strings, arrays", inv.index)
 	emitInv("assert_sites", "type assertions without comma-ok", inv.assert)
 	emitInv("panic_sites", "explicit panics and integer divisions by a non-constant", inv.panics)
-	sb.WriteString("(* implicit pointer -> interface conversions: (key, status, function, node); status 0: the operand is a\n   composite literal / allocation; status 1: the node is [ISet _ (RConv y) _] *)\n")
-	sb.WriteString("Definition conv_sites : list (string * N * N * N) := [\n")
-	for i, c := range convRows {
-		sep := ";"
-		if i == len(convRows)-1 {
-			sep = ""
+	writeIfChanged(filepath.Join(out, "ParserNilInv.v"), []byte(sb.String()))
+
+	// reviewed entries that match nothing (or whose context is gone) are an error of the reviewed list
+	stale := []string{}
+	for _, l := range [][]*allowEntry{allow.Use, allow.Store, allow.Index, allow.Assert, allow.Panic, allow.Conv} {
+		for _, e := range l {
+			if !e.used {
+				stale = append(stale, e.Key+" (matches no open site)")
+			}
 		}
-		fmt.Fprintf(&sb, "  (%s, %d%%N, %d%%N, %d%%N)%s\n", coqStr(c.key), c.status, c.fn, c.pc, sep)
 	}
-	sb.WriteString("].\n")
-	writeIfChanged(filepath.Join(out, "ParserNil.v"), []byte(sb.String()))
+	for _, e := range allow.voided {
+		stale = append(stale, e.Key+" ("+e.void+")")
+	}
+	sort.Strings(stale)
 
 	// ---- ParserNilAllowed.v ----
 	sb.Reset()
@@ -456,12 +648,12 @@ func (a *analysis) emitAll(out, rep string, allow *allowList, inv *inventory, ro
 			if i == len(rows)-1 {
 				sep = ""
 			}
-			fmt.Fprintf(&sb, "  (%d%%N, %s)%s (* %s *)\n", rw.id, coqStr(rw.key), sep, strings.ReplaceAll(rw.why, "*)", "* )"))
+			fmt.Fprintf(&sb, "  (%d%%N, %s)%s (* %s *)\n", rw.id, coqStr(rw.key), sep, coqComment(rw.why))
 		}
 		sb.WriteString("].\n\n")
 	}
-	emitRows("reviewed_c01", "use sites whose operand is claimed never nil, store sites claimed never to store a typed nil", rows1)
-	emitRows("reviewed_c03", "reviewed_c01 plus the store sites claimed to store a typed nil only after a parse error was recorded", rows3)
+	emitRows("reviewed_c01", "sites of parser_nil: use sites whose operand is claimed never nil, store sites claimed never to store a typed nil", r1.rows)
+	emitRows("reviewed_c03", "sites of parser_nil_c03: the same claims, plus store sites claimed to store a typed nil only after a parse error was recorded", r3.rows)
 	emitKeys := func(name, doc string, es []*allowEntry) {
 		fmt.Fprintf(&sb, "(* %s *)\nDefinition %s : list string := [\n", doc, name)
 		for i, e := range es {
@@ -469,7 +661,7 @@ func (a *analysis) emitAll(out, rep string, allow *allowList, inv *inventory, ro
 			if i == len(es)-1 {
 				sep = ""
 			}
-			fmt.Fprintf(&sb, "  %s%s (* %s *)\n", coqStr(e.Key), sep, strings.ReplaceAll(e.Why, "*)", "* )"))
+			fmt.Fprintf(&sb, "  %s%s (* %s *)\n", coqStr(e.Key), sep, coqComment(e.Why))
 		}
 		sb.WriteString("].\n\n")
 	}
@@ -477,6 +669,15 @@ func (a *analysis) emitAll(out, rep string, allow *allowList, inv *inventory, ro
 	emitKeys("reviewed_assert", "unchecked type assertions reviewed as never failing", allow.Assert)
 	emitKeys("reviewed_panic", "explicit panics / divisions reviewed as unreachable / non-zero", allow.Panic)
 	emitKeys("reviewed_conv", "pointer -> interface conversions reviewed (operand never nil, or the typed nil is harmless)", allow.Conv)
+	sb.WriteString("(* entries of the reviewed list that match no open site of this program or whose context is gone: must be empty *)\nDefinition stale_reviewed : list string := [\n")
+	for i, st := range stale {
+		sep := ";"
+		if i == len(stale)-1 {
+			sep = ""
+		}
+		fmt.Fprintf(&sb, "  %s%s\n", coqStr(st), sep)
+	}
+	sb.WriteString("].\n")
 	writeIfChanged(filepath.Join(out, "ParserNilAllowed.v"), []byte(sb.String()))
 
 	// ---- AstSchema.v ----
@@ -520,107 +721,59 @@ func (a *analysis) emitAll(out, rep string, allow *allowList, inv *inventory, ro
 	writeIfChanged(filepath.Join(out, "AstSchema.v"), []byte(sb.String()))
 
 	// ---- report ----
-	var jfuncs []*jsonFunc
-	for _, fi := range a.funcs {
-		sp := a.specs[fi]
-		jf := &jsonFunc{Name: fi.name, ID: fi.id, Nodes: len(fi.g.nodes), Vars: len(fi.g.vars)}
-		for i, p := range trackedParams(fi.sig) {
-			nm := "recv"
-			if p.idx >= 0 {
-				nm = fi.sig.Params().At(p.idx).Name()
-			}
-			jf.Params = append(jf.Params, nm+": "+specStr(sp.pNN[i], sp.pCL[i]))
-		}
-		for j := range trackedResults(fi.sig) {
-			jf.Results = append(jf.Results, specStr(sp.rNN[j], sp.rCL[j]))
-		}
-		jfuncs = append(jfuncs, jf)
-	}
 	var unreach []string
 	for _, n := range pk.names {
 		if !pk.funcs[n].reach {
 			unreach = append(unreach, n)
 		}
 	}
-	var stale []string
-	for _, l := range [][]*allowEntry{allow.Use, allow.Store, allow.Index, allow.Assert, allow.Panic, allow.Conv} {
-		for _, e := range l {
-			if !e.used {
-				stale = append(stale, e.Key)
-			}
+	reading := func(p *progResult) map[string]interface{} {
+		return map[string]interface{}{
+			"functions":          p.jfuncs,
+			"nodes":              p.nodes,
+			"dead_nodes_dropped": p.pruned,
+			"rounds":             p.rounds,
+			"sites":              p.jsites,
+			"use_total":          p.useTotal,
+			"use_certified":      p.useCert,
+			"use_reviewed":       p.useReviewed,
+			"use_open":           p.useOpen,
+			"store_total":        p.storeTotal,
+			"store_certified":    p.storeCert,
+			"store_reviewed":     p.storeReviewed,
+			"store_open":         p.storeOpen,
+			"conv_sites":         p.jconvs,
+			"conv_open":          p.convOpen,
+			"typed_nil_types":    p.tnNames,
+			"strict_classes":     p.strict,
+			"dirty_classes":      p.dirty,
+			"class_decisions":    p.decisions,
+			"problems":           p.problems,
+			"selfcheck_failures": p.bad,
+			"certified":          len(p.bad) == 0 && len(p.problems) == 0,
 		}
 	}
 	report := map[string]interface{}{
-		"entry":                  a.entry.name,
-		"functions":              jfuncs,
-		"unreachable_functions":  unreach,
-		"nodes":                  r.nodes,
-		"rounds":                 rounds,
-		"sites":                  jsites,
-		"use_total":              r.useTotal,
-		"use_certified":          r.useCert,
-		"use_reviewed":           r.useAllowed,
-		"use_open":               r.useOpen,
-		"store_total":            r.storeTotal,
-		"store_open":             r.storeOpen,
-		"conv_sites":             jconvs,
-		"conv_open":              r.convOpen,
-		"index_sites":            inv.index,
-		"index_open":             r.indexOpen,
-		"assert_sites":           inv.assert,
-		"assert_open":            r.assertOpen,
-		"panic_sites":            inv.panics,
-		"panic_open":             r.panicOpen,
-		"strict_classes":         strict,
-		"dirty_classes":          dirty,
-		"class_decisions":        a.demoted,
-		"problems":               pk.problems,
-		"stale_reviewed_keys":    stale,
-		"selfcheck_c01_failures": bad1,
-		"selfcheck_c03_failures": bad3,
-		"schema":                 sc,
-		"certified_c01":          len(bad1) == 0 && len(pk.problems) == 0,
-		"certified_c03":          len(bad3) == 0 && len(pk.problems) == 0,
+		"entry":                 a.entry.name,
+		"unreachable_functions": unreach,
+		"c01":                   reading(r1),
+		"c03":                   reading(r3),
+		"index_sites":           inv.index,
+		"index_open":            r.indexOpen,
+		"assert_sites":          inv.assert,
+		"assert_open":           r.assertOpen,
+		"panic_sites":           inv.panics,
+		"panic_open":            r.panicOpen,
+		"stale_reviewed_keys":   stale,
+		"schema":                sc,
+		"certified_c01":         len(r1.bad) == 0 && len(r1.problems) == 0 && len(stale) == 0 && r.indexOpen+r.assertOpen+r.panicOpen == 0,
+		"certified_c03":         len(r3.bad) == 0 && len(r3.problems) == 0 && len(stale) == 0 && r3.convOpen == 0,
 	}
 	data, err := json.MarshalIndent(report, "", " ")
 	must(err)
 	writeIfChanged(rep, append(data, '\n'))
 	for _, s := range stale {
-		r.lines = append(r.lines, "STALE reviewed key (matches no uncertified site): "+s)
-	}
-	for _, b := range bad1 {
-		r.lines = append(r.lines, "SELFCHECK c01: "+b)
-	}
-	for _, b := range bad3 {
-		r.lines = append(r.lines, "SELFCHECK c03: "+b)
+		r.lines = append(r.lines, "STALE reviewed key: "+s)
 	}
 	return r
-}
-
-// normalizedCallees: functions all of whose call sites (in the program) bind the single result to a
-// variable that the next node normalises (RNormalize) -- the shape of parseStatement
-func (a *analysis) normalizedCallees() map[*fnInfo]bool {
-	ok := map[*fnInfo]bool{}
-	called := map[*fnInfo]bool{}
-	for _, fi := range a.funcs {
-		ok[fi] = true
-	}
-	for _, fi := range a.funcs {
-		for _, n := range fi.g.nodes {
-			if n.kind != kCall {
-				continue
-			}
-			called[n.callee] = true
-			good := len(n.rets) == 1 && n.rets[0] >= 0 && n.s1.kind == kSet && n.s1.rhs == rNormalize && n.s1.y == n.rets[0]
-			if !good {
-				ok[n.callee] = false
-			}
-		}
-	}
-	for fi := range ok {
-		if !called[fi] {
-			ok[fi] = false
-		}
-	}
-	return ok
 }
